@@ -523,6 +523,47 @@ fn check_stmt_requires_semicolon(
     }
 }
 
+/// The trailing trivia of a statement whose semicolon is being removed: the comments of the semicolon are kept
+/// behind the statement's own trailing trivia, in front of the final newline.
+/// A comment which would follow a single line comment goes onto a line of its own, otherwise it would become part of it.
+fn trailing_trivia_with_semicolon_comments(
+    ctx: &Context,
+    shape: Shape,
+    mut trivia: Vec<Token>,
+    semicolon: &TokenReference,
+) -> Vec<Token> {
+    // Remove the newline at the end
+    // TODO: this is a bit of a hack - we should probably move newline appending to format_block
+    trivia.pop();
+
+    for comment in semicolon
+        .leading_trivia()
+        .chain(semicolon.trailing_trivia())
+        .filter(|token| trivia_util::trivia_is_comment(token))
+    {
+        let after_single_line_comment = matches!(
+            trivia
+                .iter()
+                .rev()
+                .find(|token| !trivia_util::trivia_is_whitespace(token))
+                .map(Token::token_type),
+            Some(TokenType::SingleLineComment { .. })
+        );
+
+        if after_single_line_comment {
+            trivia.push(create_newline_trivia(ctx));
+            trivia.push(create_indent_trivia(ctx, shape));
+        } else {
+            // Prepend a single space beforehand
+            trivia.push(Token::new(TokenType::spaces(1)));
+        }
+        trivia.push(format_moved_comment(ctx, comment));
+    }
+
+    trivia.push(create_newline_trivia(ctx));
+    trivia
+}
+
 /// Formats a block node. Note: the given shape to the block formatter should already be at the correct indentation level
 pub fn format_block(ctx: &Context, block: &Block, shape: Shape) -> Block {
     let mut ctx = *ctx;
@@ -572,27 +613,12 @@ pub fn format_block(ctx: &Context, block: &Block, shape: Shape) -> Block {
                     // We want to keep any old comments on the semicolon token, otherwise we will lose it
                     // Move the comments to the end of the stmt, but before the newline token
                     // TODO: this is a bit of a hack - we should probably move newline appending to this function
-                    let trivia = trivia_util::get_stmt_trailing_trivia(stmt.to_owned())
-                        .1
-                        .iter()
-                        .rev()
-                        .skip(1) // Remove the newline at the end
-                        .rev()
-                        .cloned()
-                        .chain(
-                            semi.leading_trivia()
-                                .chain(semi.trailing_trivia())
-                                .filter(|token| trivia_util::trivia_is_comment(token))
-                                .flat_map(|x| {
-                                    // Prepend a single space beforehand
-                                    vec![
-                                        Token::new(TokenType::spaces(1)),
-                                        format_moved_comment(&ctx, x),
-                                    ]
-                                }),
-                        )
-                        .chain(std::iter::once(create_newline_trivia(&ctx)))
-                        .collect();
+                    let trivia = trailing_trivia_with_semicolon_comments(
+                        &ctx,
+                        shape,
+                        trivia_util::get_stmt_trailing_trivia(stmt.to_owned()).1,
+                        semi,
+                    );
 
                     stmt = stmt.update_trailing_trivia(FormatTriviaType::Replace(trivia));
 
@@ -629,27 +655,12 @@ pub fn format_block(ctx: &Context, block: &Block, shape: Shape) -> Block {
                 Some(semi) => {
                     // Append semicolon trailing trivia to the end, but before the newline
                     // TODO: this is a bit of a hack - we should probably move newline appending to this function
-                    let trivia = last_stmt
-                        .trailing_trivia()
-                        .iter()
-                        .rev()
-                        .skip(1) // Remove the newline at the end
-                        .rev()
-                        .cloned()
-                        .chain(
-                            semi.leading_trivia()
-                                .chain(semi.trailing_trivia())
-                                .filter(|token| trivia_util::trivia_is_comment(token))
-                                .flat_map(|x| {
-                                    // Prepend a single space beforehand
-                                    vec![
-                                        Token::new(TokenType::spaces(1)),
-                                        format_moved_comment(&ctx, x),
-                                    ]
-                                }),
-                        )
-                        .chain(std::iter::once(create_newline_trivia(&ctx)))
-                        .collect();
+                    let trivia = trailing_trivia_with_semicolon_comments(
+                        &ctx,
+                        shape,
+                        last_stmt.trailing_trivia(),
+                        semi,
+                    );
 
                     last_stmt = last_stmt.update_trailing_trivia(FormatTriviaType::Replace(trivia));
 
